@@ -350,8 +350,8 @@ def inputs_from_model(path, vals):
     for v, (_, ang) in best.items():
         inp[v] = repr(ang)
     inp.pop("PI", None)
-    inp.pop("EPS", None)
     inp.pop("M", None)
+    # EPS stays: the exact-rational replay scalar takes the model's epsilon (the f64 replay has its own and ignores it)
     return inp
 
 
@@ -607,6 +607,11 @@ def symx_report(prop, tier, seed, index, results, feas, meta, known):
             continue
         per_sc[name] = per_sc.get(name, 0) + 1
         if per_sc[name] > 6 and any(e["scenario"] == name and e["reproduced"] for e in seen_keys.values()):
+            skipped.append(key)
+            continue
+        if sum(1 for e in seen_keys.values() if e["scenario"] == name and not e["reproduced"]) >= 4:
+            # four counterexamples of this scenario already failed to reproduce natively: the rest are reported
+            # as inconclusive without spending another model query + native search on each
             skipped.append(key)
             continue
         sc = next(s for s in index if s["name"] == name)
